@@ -74,6 +74,7 @@ class World:
         self.finished_observed = [False] * self.n
         self.started = [False] * self.n
         self.polls_without_progress = 0
+        self.silence = 0  # consecutive timeouts: a quiet period of two polls is one deviation, not two
         self.events = []  # readable trace
         self.terminated = [False] * self.n
 
@@ -102,12 +103,13 @@ class World:
             if not producers:
                 options.append((("empty",), 0))
             elif all(not self.finished_observed[w] for w in producers):
-                options.append((("empty",), 1))
+                options.append((("empty",), 0 if self.silence == 1 else 1))
         if not options:
             self.events.append("DEADLOCK: blocking get() with no message that can ever arrive")
             raise Deadlock("blocking get() with nothing deliverable")
         choice = self.sched.choose(options)
         if choice[0] == "empty":
+            self.silence += 1
             self.polls_without_progress += 1
             self.events.append("get -> Empty")
             if self.polls_without_progress > POLL_LIMIT:
@@ -116,6 +118,7 @@ class World:
         w = choice[1]
         msg = self.message(w, self.delivered[w])
         self.delivered[w] += 1
+        self.silence = 0
         self.polls_without_progress = 0
         self.events.append(f"get -> w{w}:{'marker' if msg[1] is None else 'sol'}")
         return msg
